@@ -147,6 +147,9 @@ def gen_for(stream, seed):
 
 
 def explore(pid, tier, seed, replay=None):
+    if pid in ("C12", "C15", "C16", "C17"):
+        from harness import special
+        return getattr(special, "explore_" + pid.lower())(tier, seed)
     res = {"violations": [], "known": [], "mismatches": [], "corr_obligations": 0, "corr_ok": 0, "scenarios": 0, "steps": 0,
            "nontrivial": 0, "rule": "", "samples": [], "distribution": {}, "branches": {}, "ties": {}, "corpus": {},
            "paired_runs": 0}
@@ -196,6 +199,31 @@ def explore(pid, tier, seed, replay=None):
                     res["known"].append(kf)
                 continue
             res["scenarios"] += 1
+            try:
+                one_scenario(pid, sc, res, dr, stats, C, dist, seen_nontrivial, phases, add_violation)
+            except NonFinite as e:
+                res["mismatches"].append({"scenario_seed": sc["seed"], "phase": "state", "what": f"non-finite value in the implementation state: {e}"})
+            except Exception as e:      # the harness could not follow the implementation (unexpected shapes, missing trackers, …)
+                import traceback
+                res["mismatches"].append({"scenario_seed": sc["seed"], "phase": "harness", "what": f"the harness could not follow the implementation: {type(e).__name__}: {e}",
+                                          "traceback": traceback.format_exc().splitlines()[-4:]})
+        if pid == "C20" and not replay:
+            from harness import special
+            special.explore_c20_extra(res, dr)
+    finally:
+        dr.close()
+    res["corr_obligations"] += stats.obligations
+    res["corr_ok"] += stats.ok
+    res["nontrivial"] = len(seen_nontrivial)
+    res["distribution"].update(dist)
+    res["branches"].update(stats.branches)
+    res["ties"] = stats.ties
+    return res
+
+
+def one_scenario(pid, sc, res, dr, stats, C, dist, seen_nontrivial, phases, add_violation):
+    if True:
+        if True:
             key = f"{sc['stream']}/{sc['table']['kind']}/{sc['model']['class']}/{sc['model']['order_type']}"
             dist[key] = dist.get(key, 0) + 1
             for e in sc["events"]:
@@ -210,7 +238,7 @@ def explore(pid, tier, seed, replay=None):
                     if oname in ("c01", "c11_run"):
                         for v in RUN_FUNCS[oname](tr, None):
                             add_violation(v, sc)
-                continue
+                return
             c = oracles.consts(tr.model)
             mm_all = []
             try:
@@ -225,7 +253,7 @@ def explore(pid, tier, seed, replay=None):
                 for m_ in mm_all:
                     m_["scenario_seed"] = sc["seed"]
                 res["mismatches"].extend(dict(x) for x in mm_all[:5])
-                continue
+                return
             if tr.step_error:
                 dist["step_error:" + tr.step_error[1]] = dist.get("step_error:" + tr.step_error[1], 0) + 1
             for st in tr.steps:
@@ -265,12 +293,3 @@ def explore(pid, tier, seed, replay=None):
                         vs = fn(sc, base, sc["seed"])
                     for v in vs:
                         add_violation(v, sc)
-    finally:
-        dr.close()
-    res["corr_obligations"] = stats.obligations
-    res["corr_ok"] = stats.ok
-    res["nontrivial"] = len(seen_nontrivial)
-    res["distribution"] = dist
-    res["branches"] = stats.branches
-    res["ties"] = stats.ties
-    return res
